@@ -381,6 +381,18 @@ def rule_R11_6(ctx):
         v.rule = "R11.6"
         v.key = v.key.replace("R05.3", "R11.6", 1)
     r.violations = [v for v in r.violations if "List" in v.key]
+    r4 = c05.rule_R05_4(ctx)
+    for v in r4.violations:
+        if "Object" in v.key:
+            continue
+        v.rule = "R11.6"
+        v.key = v.key.replace("R05.4", "R11.6", 1)
+        r.violations.append(v)
+        r.obligations += 1
+    r.obligations += r4.discharged
+    r.discharged += r4.discharged
+    r.instances.extend(r4.instances)
+    r.unproven.extend(r4.unproven)
     return r
 
 
